@@ -65,7 +65,7 @@ PROPS = {
         id='C07', cluster='Wasm', crate='h-wasm', tag=7,
         # n = number of differential histories (1-3 blocks each, thorough 1-5); the codec and
         # host-protocol cases are sized by the tier inside the generator
-        n={'quick': 14, 'thorough': 300}, shard=700, workers=16, crosscheck_n=3,
+        n={'quick': 14, 'thorough': 300}, shard=700, workers=16, crosscheck_n=3, search_rounds=1,
         theorems=['unpack_pack', 'pack_fits_u64', 'unpack_total', 'unpack_pack_esr', 'pack_esr_fits_u64',
                   'unpack_esr_total', 'pack_checker_sound', 'pack_esr_checker_sound', 'unpack_checker_sound',
                   'unpack_esr_checker_sound', 'output_passing',
@@ -75,7 +75,7 @@ PROPS = {
                   'model_trace_ok', 'model_trace_failure_classes', 'checker_get_sound', 'checker_size_sound',
                   'checker_consume_sound',
                   'convert_v1_roundtrip', 'produce_boundary_identity', 'validate_boundary_identity',
-                  'conversion_keeps_shape', 'observation_eq_sound'],
+                  'conversion_keeps_shape', 'observation_eq_sound', 'differential_code_sound'],
         classify=_c07_classes, nontrivial=_c07_nontrivial,
         rule='three kinds of cases in one run. (a) codec: the real pack_ptr_and_len / unpack_ptr_and_len / pack_exists_size_result / '
              'unpack_exists_size_result of fuel-core-wasm-executor on all products of 14 u32 and 8 u16 boundary values, every single-bit / '
